@@ -398,6 +398,18 @@ impl<K: Ord, V: Val<A>, A: Ord + Hash + Clone> Map<K, V, A> {
         }
     }
 
+    /// Verification hook: a snapshot of the pending (deferred) key removes.
+    #[cfg(crdts_verif)]
+    pub fn verif_deferred(&self) -> Vec<(VClock<A>, Vec<K>)>
+    where
+        K: Clone,
+    {
+        self.deferred
+            .iter()
+            .map(|(clock, keys)| (clock.clone(), keys.iter().cloned().collect()))
+            .collect()
+    }
+
     /// apply the pending deferred removes
     fn apply_deferred(&mut self) {
         let deferred = mem::take(&mut self.deferred);
